@@ -16,9 +16,9 @@ PLANS = {
     "thorough": [
         (3, "ratio", "{<<1,4>>,<<1,2>>,<<3,4>>}", "0..3", "{1,2}", 1),
         (3, "shift", "{<<1,1>>,<<2,1>>,<<1,2>>}", "0..3", "{1}", 1),
-        (4, "ratio", "{<<1,4>>,<<1,2>>,<<3,4>>}", "0..2", "{1,2}", 97),
-        (4, "shift", "{<<1,1>>,<<2,1>>,<<1,2>>}", "0..2", "{1}", 97),
-        (5, "ratio", "{<<1,4>>,<<3,4>>}", "{0,1}", "{1}", 211),
+        (4, "ratio", "{<<1,4>>,<<1,2>>,<<3,4>>}", "{0,1,2}", "{1}", 29),
+        (4, "shift", "{<<1,1>>,<<2,1>>}", "{0,1,3}", "{1}", 29),
+        (5, "ratio", "{<<3,4>>}", "{0,1}", "{1}", 5),     # dyadic values only: the replay is exact in binary floating point
     ],
 }
 
